@@ -217,6 +217,57 @@ pub fn run_keys(out_path: &str, tier: &str) {
 	let seed = seed_from_env();
 	let mut rng = Rng::new(seed ^ 0xc11);
 	let mut out = Out::create(out_path);
+	// keys generated by rcgen: generate_for every algorithm, generate_rsa_for every size (the latter only exists with aws-lc-rs)
+	#[cfg(feature = "crypto")]
+	{
+		let mut gens: Vec<(&str, u32)> = ALL_ALGS.iter().map(|a| (*a, 0u32)).collect();
+		#[cfg(feature = "awslc")]
+		for a in ["rsa-sha256", "rsa-sha384", "rsa-sha512"] {
+			gens.push((a, 2048));
+			gens.push((a, 3072));
+			if tier != "quick" {
+				gens.push((a, 4096));
+			}
+		}
+		for (gi, (alg, size)) in gens.iter().enumerate() {
+			let a = match alg_static(alg) {
+				Some(a) => a,
+				None => continue, // not an algorithm of this build
+			};
+			let case = format!("keygen/{}", gi);
+			let r = guarded(|| match *size {
+				0 => KeyPair::generate_for(a),
+				#[cfg(feature = "awslc")]
+				2048 => KeyPair::generate_rsa_for(a, RsaKeySize::_2048),
+				#[cfg(feature = "awslc")]
+				3072 => KeyPair::generate_rsa_for(a, RsaKeySize::_3072),
+				#[cfg(feature = "awslc")]
+				_ => KeyPair::generate_rsa_for(a, RsaKeySize::_4096),
+				#[cfg(not(feature = "awslc"))]
+				_ => Err(Error::KeyGenerationUnavailable),
+			});
+			let mut args = json!({"reqAlg": alg, "size": size, "entry": "pkcs8-explicit", "fmt": "generated", "origin": "rcgen-generated"});
+			match r {
+				Outcome::Ok(kp) => {
+					let der = kp.serialize_der();
+					match pkey_from_pkcs8_any(&der) {
+						Some(pkey) => {
+							let info = info_from_pkey(&format!("gen-{}-{}", alg, size), alg, &pkey, "rcgen-generated");
+							let mut kj = key_json(&info);
+							kj["type"] = json!(if info.ktype.starts_with("rsa") { "rsa" } else { info.ktype.as_str() });
+							args["key"] = kj;
+							let mut obs = loaded_obs(&kp, &info, Some(a));
+							obs["rsaBits"] = json!(if info.ktype.starts_with("rsa") { pkey.bits() } else { 0 });
+							out.event("KeyGen", &case, args, "Ok", "", obs);
+						},
+						None => out.event("KeyGen", &case, args, "Panic", "the exported private key is unreadable to OpenSSL", json!({})),
+					}
+				},
+				Outcome::Err(e) => out.event("KeyGen", &case, args, "Err", &e, json!({})),
+				Outcome::Panic(m) => out.event("KeyGen", &case, args, "Panic", &m, json!({})),
+			}
+		}
+	}
 	#[cfg(feature = "crypto")]
 	{
 		let entries_explicit = ["pkcs8-explicit", "der-explicit", "pem-explicit", "pkcs8-pem-explicit"];
